@@ -52,6 +52,93 @@ def write_ucd(rows, d):
                 f.write(f'{lo:04X};CHARACTER {lo:04X};{gc};{ccc};{bidi};{dec};;;;N;;;;;\n')
 
 
+PROPFILES = {   # file key -> (path, values with a table, other values, single-valued?)
+    's': ('Scripts.txt', ['Greek', 'Hebrew', 'Han'], ['Latin'], True),
+    'j': ('extracted/DerivedJoiningType.txt', ['D', 'L', 'R', 'T'], ['C'], True),
+    'p': ('PropList.txt', ['Join_Control', 'Noncharacter_Code_Point'], ['White_Space'], False),
+    'c': ('DerivedCoreProperties.txt', ['Default_Ignorable_Code_Point'], ['Alphabetic'], False),
+    'h': ('HangulSyllableType.txt', ['L', 'V', 'T'], ['LV'], True),
+}
+PROPTABLES = [('s', 'Greek', 's_greek'), ('s', 'Hebrew', 's_hebrew'), ('s', 'Han', 's_han'), ('j', 'D', 'j_d'), ('j', 'L', 'j_l'), ('j', 'R', 'j_r'), ('j', 'T', 'j_t'),
+              ('p', 'Join_Control', 'p_jc'), ('p', 'Noncharacter_Code_Point', 'p_nc'), ('c', 'Default_Ignorable_Code_Point', 'c_di'), ('h', 'L', 'h_l'), ('h', 'V', 'h_v'), ('h', 'T', 'h_t')]
+
+
+def gen_props(rng, mode=None):
+    """random well-formed property files: per file a list of (lo, hi, value) lines.  UAX #44 gives the ORDER of lines no
+    meaning, so lines are emitted grouped by value in ascending order (like the published files), grouped with the groups
+    restarting from low code points, or fully shuffled; a code point is listed at most once per value (and at most once
+    per file for the single-valued properties)."""
+    out = {}
+    for key, (_, vals, others, single) in PROPFILES.items():
+        lines = []
+        allv = vals + others
+        base = rng.choice([0, 0, 0x300, 0xD7F0, 0x10FF00])
+        if single:
+            cp = base
+            for _ in range(rng.randrange(0, 12)):
+                cp += rng.choice([0, 0, 0, 1, 2, 7, 0x100])
+                hi = cp + rng.choice([0, 0, 0, 1, 2, 9, 300])
+                if hi > 0x10FFFF:
+                    break
+                lines.append((cp, hi, rng.choice(allv)))
+                cp = hi + 1
+        else:
+            for v in allv:
+                cp = base
+                for _ in range(rng.randrange(0, 6)):
+                    cp += rng.choice([0, 0, 1, 2, 7, 0x100])
+                    hi = cp + rng.choice([0, 0, 0, 1, 2, 9])
+                    if hi > 0x10FFFF:
+                        break
+                    lines.append((cp, hi, v))
+                    cp = hi + 1
+        m = rng.randrange(4) if mode is None else mode
+        if m == 0:
+            lines.sort(key=lambda l: (allv.index(l[2]), l[0]))           # grouped by value, ascending (published layout)
+        elif m == 1:
+            lines.sort(key=lambda l: (allv.index(l[2]), -l[0]))          # grouped, descending
+        elif m == 2:
+            rng.shuffle(lines)                                          # any order
+        # m == 3: ascending by code point, values interleaved
+        out[key] = lines
+    return out
+
+
+def write_props(props, d):
+    os.makedirs(os.path.join(d, 'extracted'), exist_ok=True)
+    for key, (path, *_rest) in PROPFILES.items():
+        with open(os.path.join(d, path), 'w') as f:
+            f.write('# synthetic\n\n')
+            for lo, hi, v in props.get(key, []):
+                cps = f'{lo:04X}' if lo == hi else f'{lo:04X}..{hi:04X}'
+                f.write(f'{cps:<14}; {v} # Lo  SYNTHETIC\n')
+            f.write('\n# EOF\n')
+
+
+def proto_props(props):
+    return ';'.join(f'{key}:{lo:X}-{hi:X}:{v}' for key in PROPFILES for lo, hi, v in props.get(key, []))
+
+
+def check_props(props, pt):
+    problems = []
+    for key, val, name in PROPTABLES:
+        want = set()
+        for lo, hi, v in props.get(key, []):
+            if v == val:
+                want.update(range(lo, hi + 1))
+        got = set()
+        prev_hi = -1
+        for k, a, bb, _ in pt[name.upper()][1]:
+            if a > bb or a <= prev_hi:
+                problems.append(f'{name.upper()}: not searchable: entry {a:X}..{bb:X} after end {prev_hi:X}')
+            got.update(range(a, bb + 1))
+            prev_hi = max(prev_hi, bb)
+        if got != want:
+            x = min(got ^ want)
+            problems.append(f'{name.upper()}: code point {x:X} {"missing" if x in want else "extra"}')
+    return problems
+
+
 def proto_rows(rows):
     out = []
     for lo, hi, gc, ccc, bidi, width, is_range in rows:
@@ -75,7 +162,13 @@ def canon_tables(outdir):
         parts.append(name.lower() + '=[' + ','.join(cps(k, a, bb) for k, a, bb, _ in rows) + ']')
     parts.append('width=[' + ','.join(cps(k, a, bb) + '>' + f'{int(v, 16):X}' for k, a, bb, v in g['WIDE_NARROW_MAPPING'][1]) + ']')
     parts.append('bidi=[' + ','.join(cps(k, a, bb) + ':' + v for k, a, bb, v in b['BIDI_CLASS_TABLE'][1]) + ']')
-    return ';'.join(parts), g, b
+    txt = ';'.join(parts)
+    pt = None
+    pf = os.path.join(outdir, 'props.rs')
+    if os.path.exists(pf):
+        pt = translate.parse_rs(pf)
+        txt += ';' + ';'.join(name + '=[' + ','.join(cps(k, a, bb) for k, a, bb, _ in pt[name.upper()][1]) + ']' for _, _, name in PROPTABLES)
+    return txt, g, b, pt
 
 
 def check_denotation(rows, g, b):
@@ -148,27 +241,43 @@ def correspondence(ctx):
                [S(0xD800, 'Zs'), S(0xDFFF, 'Zs'), S(0xE000, 'Zs')], [(0xDFF0, 0xE010, 'Zs', 0, 'R', None, True), S(0xE011, 'Zs', 'R')]]
     for _ in range(250 if ctx.tier == 'quick' else 4000):
         inputs.append(gen_rows(rng))
+    # property files: hand-picked line orders (ascending; blocks listed out of order; adjacent pieces split over
+    # non-adjacent lines so that merging needs the sort) plus random ones for every input
+    P = lambda **kw: {k: v for k, v in kw.items()}
+    hand_props = [
+        P(s=[(0x370, 0x373, 'Greek'), (0x375, 0x375, 'Greek'), (0x376, 0x377, 'Greek'), (0x1F00, 0x1F15, 'Greek')]),
+        P(s=[(0x1F00, 0x1F15, 'Greek'), (0x1F18, 0x1F1D, 'Greek'), (0x370, 0x373, 'Greek'), (0x375, 0x375, 'Greek'), (0x376, 0x377, 'Greek')]),
+        P(s=[(0x12, 0x13, 'Han'), (0x10, 0x11, 'Han'), (0x14, 0x14, 'Han')], j=[(5, 5, 'D'), (3, 3, 'D'), (4, 4, 'D'), (1, 1, 'R')]),
+        P(p=[(0x200C, 0x200D, 'Join_Control'), (0xFDD0, 0xFDEF, 'Noncharacter_Code_Point'), (0x1FFFE, 0x1FFFF, 'Noncharacter_Code_Point'), (0xFFFE, 0xFFFF, 'Noncharacter_Code_Point'), (0x200C, 0x200D, 'White_Space')]),
+        P(h=[(0x1160, 0x11A7, 'V'), (0x1100, 0x115F, 'L'), (0x11A8, 0x11FF, 'T'), (0xA960, 0xA97C, 'L')], c=[(0xAD, 0xAD, 'Default_Ignorable_Code_Point'), (0x34F, 0x34F, 'Default_Ignorable_Code_Point'), (0, 0, 'Default_Ignorable_Code_Point')]),
+        P(s=[(0x10FFFF, 0x10FFFF, 'Hebrew'), (0, 0, 'Hebrew'), (0xD7FF, 0xE000, 'Hebrew')]),
+    ]
+    all_props = []
+    for i in range(len(inputs)):
+        all_props.append(hand_props[i] if i < len(hand_props) else gen_props(rng))
     lines = []
     impl_tables = []
     for i, rows in enumerate(inputs):
         d = os.path.join(work, f'u{i}')
         o = os.path.join(d, 'out')
         write_ucd(rows, d)
+        write_props(all_props[i], d)
         os.makedirs(o, exist_ok=True)
         r = subprocess.run([HARNESS, 'ucdgen', d, o], stdout=subprocess.PIPE, text=True, env=ENV)
         status = r.stdout.strip()
         corr.evaluations += 1
         if status != 'ok':
             impl_tables.append((status, None, None))
-            corr.spec_violations.append((f'ucdgen|{proto_rows(rows)}', status, 'VIOLATED:the generators fail on a well-formed UCD input'))
+            corr.spec_violations.append((f'ucdgen|{proto_rows(rows)}|{proto_props(all_props[i])}', status, 'VIOLATED:the generators fail on a well-formed UCD input'))
         else:
-            txt, g, b = canon_tables(o)
+            txt, g, b, pt = canon_tables(o)
             impl_tables.append((txt, g, b))
-            probs = check_denotation(rows, g, b)
+            probs = check_denotation(rows, g, b) + check_props(all_props[i], pt)
             if probs:
-                corr.spec_violations.append((f'ucdgen|{proto_rows(rows)}', txt, 'VIOLATED:' + probs[0]))
+                corr.spec_violations.append((f'ucdgen|{proto_rows(rows)}|{proto_props(all_props[i])}', txt, 'VIOLATED:' + probs[0]))
             corr.nontrivial.add((len(rows), sum(1 for r_ in rows if r_[6]), len(b['BIDI_CLASS_TABLE'][1]), len(g['UNASSIGNED'][1])))
-        lines.append(f'ucdgen|{proto_rows(rows)}')
+            corr.nontrivial.add(('props',) + tuple(len(pt[name.upper()][1]) for _, _, name in PROPTABLES[:7]))
+        lines.append(f'ucdgen|{proto_rows(rows)}|{proto_props(all_props[i])}')
         shutil.rmtree(d, ignore_errors=True)
     # the model generators on the same rows
     r = subprocess.run([DRIVER], input='\n'.join(lines) + '\n', stdout=subprocess.PIPE, text=True, env=ENV)
